@@ -273,11 +273,11 @@ def _directed(cfgt):
 
 
 QUICK_CONFIGS = [
-    (1, 1, 1), (2, 1, 1), (3, 1, 1), (2, 2, 2), (4, 2, 2), (2, 1, 2), (6, 2, 1),
-    (3, 3, 3), (6, 3, 2), (6, 2, 3), (9, 3, 1), (4, 4, 4), (8, 4, 2), (12, 4, 3),
-    (8, 1, 4), (5, 5, 2), (10, 2, 5), (15, 5, 3), (7, 7, 3), (8, 8, 8), (16, 8, 3), (24, 3, 8),
-    (4, 0, 2), (2, 2, 0),
-]  # (depth, rw, ww): 1..5 rows, powers of two and not, rw <, =, > ww; the degenerate widths 0 are accepted by the code
+    (1, 1, 1), (2, 1, 1), (4, 1, 1), (5, 1, 1), (4, 2, 2), (10, 2, 2), (3, 3, 3), (8, 8, 8),  # rw = ww, rows 1..5
+    (2, 1, 2), (6, 2, 3), (8, 1, 4), (10, 2, 5), (24, 3, 8),  # rw < ww
+    (6, 2, 1), (6, 3, 2), (9, 3, 1), (12, 4, 3), (15, 5, 3),  # rw > ww
+    (4, 0, 2), (2, 2, 0),  # degenerate widths 0 are accepted by the code
+]  # (depth, rw, ww): 1..5 rows, powers of two and not
 
 
 def _configs(ctx: Check):
@@ -298,14 +298,19 @@ REGIMES = [(0.3, 0.3, 0.9, 0.01), (0.9, 0.5, 0.3, 0.01), (0.6, 0.5, 0.6, 0.03), 
 
 def gen_cases(ctx: Check):
     """per configuration: the directed history, random histories in different attempt-probability regimes, and (for
-    a third of them) a malformed history.  `write_max_count` alternates with the configuration index and the seed,
-    so seeds 0 and 1 together cover both settings of every configuration; the data width is 6 bits (distinct words
-    up to depth 64) except for a few 1-bit and 33-bit instances."""
+    a third of them) a malformed history.  `write_max_count` alternates *within* every run: inside each class
+    (rw = ww, rw < ww, rw > ww) consecutive configurations get opposite settings (the seed only flips which one
+    starts), the configurations of depth <= 2 get both, and the corpus holds max_count witnesses - so every run
+    exercises both settings in every class.  Data width is 6 bits except for a few 1-bit and 33-bit instances."""
     rng = ctx.rng("gen")
     cases, malformed = [], []
+    in_class = {0: 0, 1: 0, 2: 0}
     for k, (depth, rw, ww) in enumerate(_configs(ctx)):
-        n = ctx.pick(90 if max(rw, ww) <= 4 else 60, 200)  # wide instances simulate 3-5x slower
-        mxs = (0, 1) if (depth <= 2 or ctx.thorough and (depth <= 4 or k % 4 == 0)) else ((k + ctx.seed) % 2,)
+        n = ctx.pick(80 if max(rw, ww) <= 4 else 50, 200)  # wide instances simulate 3-5x slower
+        cls = 0 if rw == ww else (1 if rw < ww else 2)
+        j = in_class[cls]
+        in_class[cls] += 1
+        mxs = (0, 1) if (depth <= 2 or ctx.thorough and (depth <= 4 or k % 4 == 0)) else ((j + ctx.seed) % 2,)
         for mx in mxs:
             dw = 6 if (k + mx) % 7 else (1 if k % 2 else 33)
             cfgt = (depth, rw, ww, mx, dw)
